@@ -143,7 +143,8 @@ def run(repo: Repo, rep: Report, tier: str) -> None:
         rep.ok("R10.6", "type keys are looked up only when hashable", None)
     else:
         rep.violation("R10.6", fi.key, "no is_hashable(ftype) guard", "an unhashable type key would raise instead of skipping customization", loc=fi.loc)
-
+    from ..core import regget
+    regget.report(repo, rep, "R10.7", {"annotated-innermost", "real-type"})
 
 def _r10_3(repo: Repo, rep: Report) -> None:
     seq: List[Tuple[str, List[str]]] = []
